@@ -32,7 +32,7 @@ func init() { core.Register(c03{}) }
 
 func (c03) ID() string { return "C03" }
 func (c03) Rule() string {
-	return "plans: a signer chain (self-signed leaf, or leaf + 0-2 intermediates + root) and unrelated certificates; a history of <= 10 operator operations on the real on-disk layout truststore/x509/<type>/<name>/ (put root / intermediate / leaf / unrelated certificate into a named store of any of the three types, remove it, empty a store, replace it by a symlink, drop garbage into it) interleaved with <= 8 verifications of notary.x509 and signing-authority signatures (JWS, COSE) under documents of 1-3 statements whose trust-store lists contain duplicates, several types, and stores named only by other statements; EIO / EACCES injected into the store loads of a verification. non-trivial: a verification took place while a chain certificate was in some store, or a listed store was broken; distinct: hash of (operations, statement lists, scheme, verdicts, store calls)"
+	return "plans: a signer chain (self-signed leaf, or leaf + 0-2 intermediates + root) and unrelated certificates; statements that may also list a store name in another letter case (another, unloadable store) or names that walk into other directories; a history of <= 10 operator operations on the real on-disk layout truststore/x509/<type>/<name>/ (put root / intermediate / leaf / unrelated certificate into a named store of any of the three types, remove it, empty a store, replace it by a symlink, drop garbage into it) interleaved with <= 8 verifications of notary.x509 and signing-authority signatures (JWS, COSE) under documents of 1-3 statements whose trust-store lists contain duplicates, several types, and stores named only by other statements; EIO / EACCES injected into the store loads of a verification. non-trivial: a verification took place while a chain certificate was in some store, or a listed store was broken; distinct: hash of (operations, statement lists, scheme, verdicts, store calls)"
 }
 func (c03) Components() map[string]string {
 	return map[string]string{
@@ -54,6 +54,9 @@ func (c03) Gen(r *rand.Rand, tier string, idx int) *core.Plan {
 	w["statements"] = int64(1 + r.IntN(3))
 	w["hasScoped"] = int64(r.IntN(2))
 	w["traversal"] = int64(core.Pick(r, 0, 0, 0, 0, 1, 2, 3, 4))
+	if w["traversal"] == 0 && idx%3 == 1 {
+		w["casefold"] = int64(1 + idx/3%2) // 1: the other spelling names no store, 2: an empty one
+	}
 	w["plugin"] = int64(r.IntN(3) / 2)
 	w["authLogged"] = int64(r.IntN(3) / 2)
 	// per statement: a list of store indexes (type*3+name), with duplicates
@@ -169,6 +172,23 @@ func (l c03) Exec(env *core.Env) *core.Result {
 			extra = []string{"ca:../../../../elsewhere", "signingAuthority:../../../../elsewhere"}
 		}
 		sts[applicable].TrustStores = append(sts[applicable].TrustStores, extra...)
+	}
+	if w["casefold"] != 0 {
+		// the applicable statement also lists, after the first store of each signing type, the same name in another
+		// letter case. That is another store (names are file names, compared exactly): here one that does not exist
+		// or holds nothing - a listed store that cannot be loaded
+		for _, typ := range c03StoreTypes[:2] {
+			for _, s := range sts[applicable].TrustStores {
+				if t, name, _ := strings.Cut(s, ":"); t == typ {
+					other := strings.ToUpper(name[:1]) + name[1:]
+					sts[applicable].TrustStores = append(sts[applicable].TrustStores, typ+":"+other)
+					if w["casefold"] == 2 {
+						os.MkdirAll(filepath.Join(x, typ, other), 0755)
+					}
+					break
+				}
+			}
+		}
 	}
 	doc := world.OCIDoc(sts...)
 	// the blob document holds the same statements (addressed by name; the last one is the global statement)
